@@ -59,7 +59,8 @@ def _recipes():
     R = {}
 
     def add(name, op, impl, ref, n=1, approx=False, fmts=("coo", "gcxs", "dok"), kinds=None, vec=False, pat="default"):
-        R[name] = dict(op=op, impl=impl, ref=ref, n=n, approx=approx, fmts=fmts, kinds=kinds, vec=vec, pat=pat)
+        R[name] = dict(op=op, impl=impl, ref=ref, n=n, approx=approx, fmts=fmts, kinds=kinds, vec=vec, pat=pat,
+                       family=_family(name, op))
 
     E = "umath.elemwise"
     # ---- element-wise: ufuncs, operators, wrappers (Computes)
@@ -218,6 +219,8 @@ def _recipes():
     add("take_flat", "coo_common.take", lambda S, np, x, y, f: S.take(x, np.array([1, 4, 8])), lambda np, a, b, f: np.take(a, [1, 4, 8]))
     add("diagonal", "coo_common.diagonal", lambda S, np, x, y, f: S.diagonal(x), lambda np, a, b, f: np.diagonal(a))
     add("diagonal_off", "coo_common.diagonal", lambda S, np, x, y, f: S.diagonal(x, offset=1), lambda np, a, b, f: np.diagonal(a, offset=1))
+    add("diagonal_neg", "coo_common.diagonal", lambda S, np, x, y, f: S.diagonal(x, offset=-1), lambda np, a, b, f: np.diagonal(a, offset=-1))
+    add("np_diagonal", "SparseArray.__array_function__", lambda S, np, x, y, f: np.diagonal(x), lambda np, a, b, f: np.diagonal(a))
     add("diagonalize", "coo_common.diagonalize", lambda S, np, x, y, f: S.diagonalize(x), lambda np, a, b, f: _diagonalize_ref(np, a, f), vec=True)
     add("pad_fill", "common.pad", lambda S, np, x, y, f: S.pad(x, 1, constant_values=f), lambda np, a, b, f: np.pad(a, 1, constant_values=f))
     add("pad_default", "common.pad", lambda S, np, x, y, f: S.pad(x, 1), lambda np, a, b, f: np.pad(a, 1))
@@ -255,10 +258,51 @@ def _recipes():
     add("from_numpy", "COO.from_numpy", lambda S, np, x, y, f: S.COO.from_numpy(x.todense(), fill_value=f), lambda np, a, b, f: a, fmts=("coo",))
     add("gcxs_from_numpy", "GCXS.from_numpy", lambda S, np, x, y, f: S.GCXS.from_numpy(x.todense(), fill_value=f), lambda np, a, b, f: a, fmts=("coo",))
     add("npz_roundtrip", "io.load_npz", _npz_roundtrip, lambda np, a, b, f: a, fmts=("coo", "gcxs"))
+    add("npz_save", "io.save_npz", _npz_roundtrip, lambda np, a, b, f: a, fmts=("coo", "gcxs"))
+    add("random_fill", "utils.random", lambda S, np, x, y, f: S.random((3, 4), density=0.5, fill_value=f, random_state=1).fill_value,
+        lambda np, a, b, f: f, fmts=("coo",), kinds="floatonly")
+    add("from_iter", "COO.from_iter", lambda S, np, x, y, f: S.COO.from_iter({(0, 1): x.dtype.type(1), (2, 2): x.dtype.type(1)}, shape=(3, 3), fill_value=f, dtype=x.dtype),
+        lambda np, a, b, f: _from_iter_ref(np, a, f), fmts=("coo",))
+    add("gcxs_from_iter", "GCXS.from_iter", lambda S, np, x, y, f: S.GCXS.from_iter({(0, 1): x.dtype.type(1), (2, 2): x.dtype.type(1)}, shape=(3, 3), fill_value=f),
+        lambda np, a, b, f: _from_iter_ref(np, a, f), fmts=("coo",))
+    add("dok_from_numpy", "DOK.from_numpy", lambda S, np, x, y, f: S.DOK.from_numpy(x.todense()), lambda np, a, b, f: a, fmts=("coo",))
+    add("dok_setitem", "DOK.__setitem__", _dok_setitem, lambda np, a, b, f: _dok_setitem_ref(np, a, f), fmts=("dok",))
+    add("zeros", "common.zeros", lambda S, np, x, y, f: S.zeros((2, 3), dtype=x.dtype), lambda np, a, b, f: np.zeros((2, 3), dtype=a.dtype), fmts=("coo",))
+    add("ones", "common.ones", lambda S, np, x, y, f: S.ones((2, 3), dtype=x.dtype), lambda np, a, b, f: np.ones((2, 3), dtype=a.dtype), fmts=("coo",))
+    add("empty", "common.empty", lambda S, np, x, y, f: S.empty((2, 3), dtype=x.dtype).shape, lambda np, a, b, f: (2, 3), fmts=("coo",))
+    add("eye", "common.eye", lambda S, np, x, y, f: S.eye(3, 4, k=1, dtype=x.dtype), lambda np, a, b, f: np.eye(3, 4, k=1, dtype=a.dtype), fmts=("coo",))
+    add("getters", "SparseArray.ndim", lambda S, np, x, y, f: (x.ndim, x.size, x.nnz, None, str(x.dtype), x.device, len(x.todense())),
+        lambda np, a, b, f: (2, 9, 4, None, str(a.dtype), "cpu", 3), kinds="getters")
     add("result_type", "coo_common.result_type", lambda S, np, x, y, f: str(S.result_type(x, y)), lambda np, a, b, f: str(np.result_type(a, b)), n=2)
     add("can_cast", "common.can_cast", lambda S, np, x, y, f: bool(S.can_cast(x.dtype, np.float64)), lambda np, a, b, f: bool(np.can_cast(a.dtype, np.float64)))
     add("density_nnz", "SparseArray.density", lambda S, np, x, y, f: (x.ndim, x.size, x.shape), lambda np, a, b, f: (a.ndim, a.size, a.shape))
     return R
+
+
+def _family(name, op):
+    """recipes that exercise the same Numba kernels are run by the same worker process (each process JIT-compiles a
+    kernel once per dtype signature; compilation, not execution, dominates the cost of the matrix)"""
+    tail = op.split(".")[-1]
+    if tail in ("dot", "matmul", "__matmul__", "__rmatmul__", "tensordot", "einsum", "kron") or name in ("vecdot", "outer"):
+        return "products"
+    if tail in ("sort", "unique_values", "unique_counts"):
+        return "sort"
+    if tail in ("argmax", "argmin"):
+        return "argminmax"
+    if tail in ("__getitem__", "take", "squeeze", "broadcast_arrays") or name in ("m_squeeze",):
+        return "indexing"
+    if tail in ("sum", "prod", "max", "min", "mean", "std", "var", "any", "all", "reduce", "nansum", "nanprod", "nanmax", "nanmin",
+                "nanmean", "nanreduce", "__array_function__"):
+        return "reductions"
+    if op == "umath.elemwise" or tail in ("abs", "equal", "round", "isinf", "isnan", "isposinf", "isneginf", "real", "imag", "conj",
+                                          "astype", "clip", "where"):
+        return "elemwise"
+    return "misc"
+
+
+# families whose kernels are compiled per DATA dtype: the quick tier runs them with float64 data only (plus the
+# non-zero int / bool fills of the zero-only operations, which never reach a kernel: the guard raises first)
+DTYPE_HEAVY = ("products", "sort", "argminmax")
 
 
 def _diagonalize_ref(np, a, f):
@@ -266,6 +310,31 @@ def _diagonalize_ref(np, a, f):
     # The dense meaning of "put v on the diagonal of a zero matrix": off-diagonal 0, diagonal v.
     out = np.zeros((a.shape[0], a.shape[0]), dtype=a.dtype)
     out[np.arange(a.shape[0]), np.arange(a.shape[0])] = a
+    return out
+
+
+def _from_iter_ref(np, a, f):
+    out = np.full((3, 3), f, dtype=a.dtype)
+    out[0, 1] = 1
+    out[2, 2] = 1
+    return out
+
+
+def _dok_setitem(S, np, x, y, f):
+    d = S.DOK.from_coo(x.asformat("coo"))
+    d[0, 0] = 7           # overwrite a stored element
+    d[0, 1] = f           # store the fill value over a stored element: the element must disappear
+    d[1, 1] = 7           # create an element
+    d[2, 2] = f           # store the fill value at an unstored position
+    return d
+
+
+def _dok_setitem_ref(np, a, f):
+    out = a.copy()
+    out[0, 0] = 7
+    out[0, 1] = f
+    out[1, 1] = 7
+    out[2, 2] = f
     return out
 
 
@@ -312,6 +381,10 @@ def _probes():
     add("bool_0d", 3, lambda S, np, x, f: bool(x[0:1, 1:2].reshape(())), lambda np, a, f: bool(a[0, 1]), sel=(1, []))
     add("float_2d", 3, lambda S, np, x, f: float(x), lambda np, a, f: None, sel=(9, [3, 3]))
     add("int_1elem_2d", 3, lambda S, np, x, f: int(x[0:1, 1:2]), lambda np, a, f: None, sel=(1, [1, 1]))
+    add("maybe_densify_small", 4, lambda S, np, x, f: x.maybe_densify(max_size=100, min_density=0.9), lambda np, a, f: a, sel=(100, 0.9))
+    add("maybe_densify_dense_enough", 4, lambda S, np, x, f: x.maybe_densify(max_size=5, min_density=0.25), lambda np, a, f: a, sel=(5, 0.25))
+    add("maybe_densify_refused", 4, lambda S, np, x, f: x.maybe_densify(max_size=5, min_density=0.5), lambda np, a, f: None, sel=(5, 0.5))
+    add("maybe_densify_boundary", 4, lambda S, np, x, f: x.maybe_densify(max_size=9, min_density=0.99), lambda np, a, f: a, sel=(9, 0.99))
     add("int_1elem_1d", 3, lambda S, np, x, f: int(x[0, 1:2]), lambda np, a, f: None, sel=(1, [1]))
     return P
 
@@ -429,6 +502,8 @@ def impl_case(case):
     _check_auto(case)
     if "probe" in case:
         return impl_probe(case)
+    if "guard" in case:
+        return impl_guard(case)
     rec = RECIPES[case["recipe"]]
     da, x, f = _operand(np, sparse, case["fill"], "x", case["fmt"], rec["vec"], rec["pat"])
     db = y = None
@@ -447,7 +522,12 @@ def impl_case(case):
             # NumPy rejects these operands too (e.g. `-` on booleans): outside the operation's domain
             out.update(out="unsupported", ref_exc=exp[1])
         return out
-    got = _norm(np, r)
+    try:
+        got = _norm(np, r)
+    except Exception as ex:  # noqa: BLE001
+        # the returned object cannot even be densified (malformed result, e.g. GCXS x[None, 1]: finding D22 of C02)
+        out.update(out="other", exc=type(ex).__name__, msg="todense() of the result: " + str(ex)[:80])
+        return out
     if exp[0] == "refexc":
         out.update(out="wrong", note="numpy raises " + exp[1], got=_brief(got))
         return out
@@ -489,8 +569,12 @@ def impl_probe(case):
         out["const"] = bool(((fa == first) | ((fa != fa) & (first != first))).all())
         out["nshape"] = [int(d) for d in nd.shape]
         out["shape"] = [int(d) for d in np.broadcast_shapes((3, 3), nd.shape)]
-    if pr["sel"] is not None:
+    if pr["sel"] is not None and pr["kind"] == 3:
         out["size"], out["shape"] = pr["sel"][0], list(pr["sel"][1])
+    if pr["kind"] == 4:
+        if not hasattr(x, "maybe_densify"):
+            return {"out": "unsupported", "dense": False, "const": False, "shape": [0], "nshape": [], "size": 0}
+        out["size"], out["shape"], out["const"] = int(x.size), [int(pr["sel"][0])], bool(x.density < pr["sel"][1])
     try:
         exp = _norm(np, pr["ref"](np, da, f))
     except Exception as ex:  # noqa: BLE001
@@ -514,6 +598,66 @@ def impl_probe(case):
     return out
 
 
+GUARD_OUT = {"ok": 0, "valueerror": 1, "other": 3}
+
+
+def impl_guard(case):
+    """the guards themselves, on operands with the given fills (None = an ndarray, which has no fill_value)"""
+    import numpy as np
+    import sparse
+    from sparse.numba_backend._utils import check_consistent_fill_value, check_fill_value, check_zero_fill_value
+    ops = []
+    for code in case["ops"]:
+        if code is None:
+            ops.append(np.ones(2))
+        else:
+            f = _fillval(np, code)
+            ops.append(sparse.COO.from_numpy(np.array([f, f]), fill_value=f))
+    try:
+        if case["kind"] == 0:
+            check_zero_fill_value(*ops)
+        elif case["kind"] == 1:
+            check_consistent_fill_value(ops)
+        else:
+            acc = [np.float64(float(a)) if isinstance(a, str) else a for a in case["acc"]]
+            if case["amode"] == 0:
+                check_fill_value(ops[0])
+            elif case["amode"] == 1:
+                check_fill_value(ops[0], accept_fv=acc[0])
+            else:
+                check_fill_value(ops[0], accept_fv=acc)
+        return {"g": "ok"}
+    except ValueError:
+        return {"g": "valueerror"}
+    except Exception as ex:  # noqa: BLE001
+        return {"g": "other", "exc": type(ex).__name__}
+
+
+def guard_cases(tier, seed):
+    import itertools
+    rng = random.Random(seed + 7)
+    codes = [None, "z", "nz", "3", "nan", "pinf", "iz", "i3", "F", "T"]
+    out = []
+    for kind in (0, 1):
+        for n in (0, 1, 2):
+            for ops in itertools.product(codes, repeat=n):
+                out.append(dict(guard=True, kind=kind, amode=0, ops=list(ops), acc=[]))
+        triples = list(itertools.product(codes, repeat=3))
+        for ops in (triples if tier == "thorough" else rng.sample(triples, 150)):
+            out.append(dict(guard=True, kind=kind, amode=0, ops=list(ops), acc=[]))
+    accs = [(0, []), (1, [0]), (1, [3]), (1, ["nan"]), (1, ["-0.0"]), (2, [0, 3]), (2, []), (2, ["nan", 0]), (2, ["inf"])]
+    for code in codes[1:]:
+        for amode, acc in accs:
+            out.append(dict(guard=True, kind=2, amode=amode, ops=[code], acc=acc))
+    return out
+
+
+def acc_token(a):
+    if isinstance(a, str):
+        return vlib.val_token(float(a))
+    return int(a)
+
+
 RECIPES = _recipes()
 PROBES = _probes()
 
@@ -532,6 +676,8 @@ def table_ops():
 
 def fill_ok_for(rec, code):
     k = rec["kinds"]
+    if k == "floatonly" and FILLS[code][0] != "float64":
+        return False
     if k in ("nonan", "nonan_nobool") and code == "nan":
         return False          # NumPy's own NaN ordering / uniqueness is out of scope (C10)
     if k == "nonan_nobool" and code in ("T", "F"):
@@ -557,6 +703,9 @@ def build_cases(tier, seed, ops):
             for code in fills:
                 if not fill_ok_for(rec, code):
                     continue
+                if tier == "quick" and rec["family"] in DTYPE_HEAVY and FILLS[code][0] != "float64":
+                    if not (rec["family"] == "products" and code in ("i3", "T") and name not in ("vecdot", "outer")):
+                        continue
                 if rec["n"] == 1:
                     combos = [(code, None, None)]
                 else:
@@ -591,22 +740,53 @@ def build_probes():
     return out
 
 
-def run_generation(auto, cases, probes):
-    """one interpreter generation: SPARSE_AUTO_DENSIFY set (or not) before the workers are spawned"""
+def impl_batch(batch):
+    """all cells of one (family, format) group, run in order by one worker process"""
+    out = []
+    for case in batch:
+        try:
+            out.append(impl_case(case))
+        except BaseException as ex:  # noqa: BLE001
+            out.append({"exc": type(ex).__name__, "msg": str(ex)[:200]})
+    return out
+
+
+def run_generation(auto, cases, probes, guards=()):
+    """one interpreter generation: SPARSE_AUTO_DENSIFY set (or not) before the workers are spawned.  Cells are grouped
+    by (kernel family, format) so that each Numba kernel is compiled by one process only."""
+    order = {"products": 0, "indexing": 1, "reductions": 2, "sort": 3, "argminmax": 4, "elemwise": 5, "misc": 6, "probes": 7}
+    groups = {}
+    for i, c in enumerate(cases):
+        fam = RECIPES[c["recipe"]]["family"]
+        # DOK operands are converted to COO by the library, so they share COO's kernels
+        fmt = ("gcxs" if c["fmt"] == "gcxs" else "coo+dok") if fam in ("products", "indexing", "reductions", "elemwise") else "*"
+        groups.setdefault((order[fam], fam, fmt), []).append(("c", i))
+    for i, c in enumerate(probes):
+        groups.setdefault((order["probes"], "probes", c["fmt"]), []).append(("p", i))
+    for i, c in enumerate(guards):
+        groups.setdefault((8, "guards", "*"), []).append(("g", i))
+    keys = sorted(groups)
+    src = {"c": cases, "p": probes, "g": guards}
+    batches = [[dict(src[k][i], auto=auto) for k, i in groups[key]] for key in keys]
     old = os.environ.get("SPARSE_AUTO_DENSIFY")
     try:
         if auto:
             os.environ["SPARSE_AUTO_DENSIFY"] = "1"
         else:
             os.environ.pop("SPARSE_AUTO_DENSIFY", None)
-        res = vlib.run_impl("props.c07", "impl_case", [dict(c, auto=auto) for c in cases], workers=6, per_case_timeout=60.0)
-        pres = vlib.run_impl("props.c07", "impl_probe", [dict(c, auto=auto) for c in probes], workers=6, per_case_timeout=60.0)
+        bres = vlib.run_impl("props.c07", "impl_batch", batches, workers=6, per_case_timeout=150.0)
     finally:
         if old is None:
             os.environ.pop("SPARSE_AUTO_DENSIFY", None)
         else:
             os.environ["SPARSE_AUTO_DENSIFY"] = old
-    return res, pres
+    res, pres, gres = [None] * len(cases), [None] * len(probes), [None] * len(guards)
+    dst = {"c": res, "p": pres, "g": gres}
+    for key, br in zip(keys, bres, strict=True):
+        for j, (k, i) in enumerate(groups[key]):
+            # a batch whose worker was killed (hang) comes back as one marker dict: every cell of it gets the marker
+            dst[k][i] = br[j] if isinstance(br, list) and j < len(br) else (br if isinstance(br, dict) else None)
+    return res, pres, gres
 
 
 def out_class(r):
@@ -621,8 +801,8 @@ def coq_str(s):
     return '"' + s.replace('"', '""') + '"'
 
 
-CLAUSES = {"coo_common.diagonal": "D5_diagonal_nonzero_fill", "coo_common.diagonalize": "D14_diagonalize_nonzero_fill"}
-D23_RECIPES = {"sum_ax1_full", "m_sum_full", "mean_ax1_full", "nansum_ax1_full", "vecdot"}
+# clause names of the open findings.  D5 diagonal / D14 diagonalize (fix 7b39a89) and D29 sum with a non-finite fill
+# (fix f1f8980) were repaired and are no longer tagged: if one of them shows up again it is a new violation.
 CODE_TEXT = {
     1: "operation has no required policy / is missing from the generated table",
     2: "SILENTLY WRONG: a result that differs from NumPy on the densified operands",
@@ -635,8 +815,9 @@ CODE_TEXT = {
     13: "probe: sparse-dense mix disagrees with the generated dense-mix rule",
     14: "probe: scalar conversion disagrees with the generated _to_scalar rule",
     15: "probe: result silently wrong",
+    16: "probe: maybe_densify disagrees with the generated size test",
 }
-CLAUSE_OF_CODE = {1: "unclassified_operation", 2: "silently_wrong", 3: "guard_not_effective", 4: "unexpected_exception",
+CLAUSE_OF_CODE = {16: "maybe_densify_rule", 1: "unclassified_operation", 2: "silently_wrong", 3: "guard_not_effective", 4: "unexpected_exception",
                   5: "hang", 7: "runtimeerror_in_operation", 11: "coercion_not_refused", 12: "auto_densify_wrong",
                   13: "dense_mix_rule", 14: "to_scalar_rule", 15: "probe_silently_wrong"}
 IMPORTS = "From Coq Require Import String.\nFrom Verif Require Import C07Judge.\nOpen Scope string_scope."
@@ -644,10 +825,8 @@ IMPORTS = "From Coq Require Import String.\nFrom Verif Require Import C07Judge.\
 
 def clause_for(code, c, r):
     if code == 2:
-        if c["op"] in CLAUSES:
-            return CLAUSES[c["op"]]
-        if c["recipe"] in D23_RECIPES and {c["fill"], c["fill2"]} & {"nan", "pinf", "ninf"}:
-            return "D23_sum_nonfinite_fill_complete_group"
+        if (r or {}).get("got", 0) is None and c["fmt"] == "dok" and c["op"].split(".")[-1] in ("isinf", "isnan"):
+            return "D30_dok_isinf_isnan_return_None"
     return CLAUSE_OF_CODE.get(code, "other") + ":" + c["op"]
 
 
@@ -657,17 +836,29 @@ def campaign(build, tier, seed, report, budget=1):
     cases, skipped = build_cases(tier, seed, ops)
     probes = build_probes()
     # AUTO_DENSIFY is read by SparseArray.__array__ only (checked by the site extractor), so the quick tier repeats
-    # a third of the matrix in the second interpreter generation; the probes run in full in both
-    sub = {"z", "iz", "F", "3", "nan", "T"}
+    # part of the matrix (element-wise, conversions, shape operations; fills 0, 3, NaN) in the second interpreter generation; the probes
+    # run in full in both
+    sub = {"z", "3", "nan"}
+    light = ("elemwise", "misc")
     gen_cases = {False: cases,
-                 True: cases if tier == "thorough" else [c for c in cases if c["fill"] in sub and (c["fill2"] in sub or c["fill2"] is None)]}
-    gens = {auto: run_generation(auto, gen_cases[auto], probes) for auto in (False, True)}
+                 True: cases if tier == "thorough" else
+                 [c for c in cases if RECIPES[c["recipe"]]["family"] in light and c["fill"] in sub
+                  and (c["fill2"] in sub or c["fill2"] is None)]}
+    gcases = guard_cases(tier, seed)
+    import time
+    phase = {}
+    gens = {}
+    for auto in (False, True):
+        t0 = time.time()
+        gens[auto] = run_generation(auto, gen_cases[auto], probes, gcases if not auto else ())
+        phase["impl_generation_" + ("auto" if auto else "unset")] = round(time.time() - t0, 1)
+    t0 = time.time()
     lits, meta = [], []
     hist = {}
     not_exercised = {}
     harness_failures = []
     for auto in (False, True):
-        res, _ = gens[auto]
+        res = gens[auto][0]
         cs = gen_cases[auto]
         base = {}
         for c, r in zip(cs, res, strict=True):
@@ -690,19 +881,22 @@ def campaign(build, tier, seed, report, budget=1):
             lits.append(vpair(coq_str(c["op"]), vZ(kind), vlist(toks), vZ(OUT_CODE[oc])))
             meta.append((auto, i))
             hist[(c["op"], oc)] = hist.get((c["op"], oc), 0) + 1
-    codes = build.judge("c07_matrix", IMPORTS, "matrix_case", "judge_matrix", lits)
+    tagged = build.judge("c07_matrix", IMPORTS, "matrix_case", "judge_matrix_tagged", lits)
+    if len(tagged) != len(lits):
+        raise vlib.CoqEvalError(f"judge_matrix_tagged returned {len(tagged)} verdicts for {len(lits)} cases")
+    codes = [(k, (v - 1) // 4) for k, v in tagged if (v - 1) // 4 != 0]
+    must_raise = sum(1 for _k, v in tagged if (v - 1) % 4 == 0)
     for k, code in codes:
         auto, i = meta[k]
         c, r = gen_cases[auto][i], gens[auto][0][i]
         viol.append({"property": "C07", "op": c["op"], "kind": "representation" if code == 1 else "value",
                      "clause": clause_for(code, c, r), "what": CODE_TEXT.get(code, str(code)),
                      "case": dict(c, auto=auto), "impl": dict(r or {}), "replay_py": replay_line(c, auto)})
-    must_raise = len(lits) - len(build.judge("c07_tags", IMPORTS, "matrix_case", "tag_matrix", lits))
     # ---- probes
     plits, pmeta = [], []
     phist = {}
     for auto in (False, True):
-        _, pres = gens[auto]
+        pres = gens[auto][1]
         for i, (c, r) in enumerate(zip(probes, pres, strict=True)):
             oc = out_class(r)
             r = r or {}
@@ -722,24 +916,47 @@ def campaign(build, tier, seed, report, budget=1):
                      "clause": CLAUSE_OF_CODE.get(code, "probe") + ":" + c["probe"],
                      "what": CODE_TEXT.get(code, str(code)), "case": dict(c, auto=auto), "impl": r,
                      "replay_py": replay_line(c, auto, probe=True)})
+    # ---- the guards themselves (kernel level): generated loop bodies vs check_zero/consistent/check_fill_value
+    glits = []
+    ghist = {}
+    for c, r in zip(gcases, gens[False][2], strict=True):
+        g = (r or {}).get("g", "other")
+        toks = [None if o is None else FILLS[o][3] for o in c["ops"]]
+        glits.append(vpair(vZ(c["kind"]), vZ(c["amode"]), vlist(toks, lambda t: "None" if t is None else f"(Some {vZ(t)})"),
+                           vlist([acc_token(a) for a in c["acc"]]), vZ(GUARD_OUT[g])))
+        ghist[(("check_zero", "check_consistent", "check_fill_value")[c["kind"]], g)] = \
+            ghist.get((("check_zero", "check_consistent", "check_fill_value")[c["kind"]], g), 0) + 1
+    for k, code in build.judge("c07_guards", IMPORTS, "guard_case", "judge_guard", glits):
+        c = gcases[k]
+        viol.append({"property": "C07", "op": ("check_zero_fill_value", "check_consistent_fill_value", "check_fill_value")[c["kind"]],
+                     "kind": "representation", "clause": "guard_model_mismatch",
+                     "what": "the generated guard (Gen/S_fill.v + Model/FillRules.v loops) disagrees with the implementation's guard",
+                     "case": c, "impl": gens[False][2][k], "replay_py": replay_line(c, False)})
     if harness_failures:
         viol.append({"property": "C07", "op": "harness", "kind": "representation", "clause": "harness_failure",
                      "what": "the worker function itself failed on some cases", "case": harness_failures[0]["case"],
                      "impl": harness_failures[0]["res"], "count": len(harness_failures), "replay_py": "# see case"})
     # ---- coverage
     cov = report["coverage"]
-    cov["evaluations"] = len(lits) + len(plits)
+    phase["coq_judges"] = round(time.time() - t0, 1)
+    cov["phase_seconds"] = phase
+    cov["evaluations"] = len(lits) + len(plits) + len(glits)
+    cov["guard_tags"] = {f"{k[0]}:{k[1]}": v for k, v in sorted(ghist.items())}
     exercised_ops = sorted({c["op"] for c in cases})
     cov["distinct_nontrivial"] = len({(c["recipe"], c["fill"], c["fill2"], c["fmt"], c["fmt2"]) for c in cases
                                       if not is_baseline(c)}) + len(probes)
     cov["rule"] = ("operation x fill matrix: every recipe (one call of a public operation named in the generated site table) x "
                    "fills {0,-0.0,3,NaN,+inf,-inf float64; 0,3 int64; False,True} x formats COO/GCXS/DOK (second operand: same fill, "
                    "the dtype's zero, another non-zero fill, another format) x SPARSE_AUTO_DENSIFY in {unset,1} (separate interpreter "
-                   "generations; quick tier: the second generation repeats the fills {0,3,NaN,True}); plus coercion / dense-mix / "
+                   "generations; quick tier: the second generation repeats the element-wise / conversion / shape recipes with fills {0,3,NaN} "
+                   "— the switch is read by __array__ only, theorem coercion_single_site); plus coercion / dense-mix / "
                    "scalar-conversion probes in both generations; distinct = distinct non-baseline cells + probes")
     cov["cases_per_generation"] = {"unset": len(gen_cases[False]), "1": len(gen_cases[True]), "probes": len(probes)}
     cov["operations_in_table"] = len(ops)
     cov["public_operations_in_table"] = sum(1 for r in ops.values() if r["public"])
+    probe_ops = ["SparseArray.__array__", "SparseArray.__array_ufunc__", "SparseArray.__float__", "SparseArray.__bool__",
+                 "SparseArray.__int__"]
+    exercised_ops = sorted(set(exercised_ops) | {o for o in probe_ops if o in ops})
     cov["operations_exercised"] = len(exercised_ops)
     cov["recipes_without_method_for_format"] = skipped
     cov["public_ops_without_recipe"] = sorted(o for o, r in ops.items() if r["public"] and o not in exercised_ops)
